@@ -189,7 +189,8 @@ def _verify_one(args):
         # and a deliberately falsified postcondition must fail
         can = {"vacuous_paths": 0, "live_paths": 0, "falsified_post_fails": None}
         reg2 = mod.make_registry()
-        obs2, _ = con.verify(reg2, mutate_goal=lambda lab, t: z3.And(t, z3.BoolVal(False)))
+        obs2, _ = con.verify(reg2, mutate_goal=lambda lab, t: z3.And(t, z3.BoolVal(False)),
+                             path_limit=getattr(con, "canary_path_limit", None))  # opt-in: contracts with many paths sample the canary
         fails = 0
         posts = 0
         for ob in obs2:
